@@ -205,7 +205,16 @@ def presence(ctx, rule="C14.presence"):
         # wires in cmd.reg order
         srcs = [x for x in walk_no_nested(f.node) if isinstance(x, (ast.GeneratorExp, ast.ListComp)) and
                 isinstance(x.elt, ast.Attribute) and x.elt.attr == "ind" and (dotted(x.generators[0].iter) or "").endswith(".reg")]
-        ctx.require(srcs, f"{qn} no longer builds the mode list from cmd.reg")
+        # ... of ALL registers of the command (a comprehension / generator over cmd.reg, or a loop over it that collects .ind)
+        loops = [x for x in walk_no_nested(f.node) if isinstance(x, ast.For) and (dotted(x.iter) or "").endswith(".reg") and
+                 any(isinstance(y, ast.Attribute) and y.attr == "ind" for y in ast.walk(x))]
+        maps = [x for x in walk_no_nested(f.node) if isinstance(x, ast.Call) and dotted(x.func) == "map" and len(x.args) == 2 and
+                (dotted(x.args[1]) or "").endswith(".reg")]
+        ctx.ob(rule, f.site, bool(srcs or loops or maps), "" if (srcs or loops or maps) else f"{qn} does not build the mode list of a statement "
+               "from every register of cmd.reg: multi-mode commands lose modes", role="all-modes", line=f.node.lineno)
+        n += 1
+        if not (srcs or loops or maps):
+            continue
         if qn == "to_xir":
             st = [x for x in walk_no_nested(f.node) if isinstance(x, ast.Call) and dotted(x.func) == "xir.Statement"]
             ctx.require(st and len(st[0].args) >= 3, "to_xir no longer builds xir.Statement(name, params, wires)")
